@@ -470,3 +470,9 @@ pub fn err_kind(msg: &str) -> &'static str {
 }
 
 pub fn arc_unused() -> Option<Arc<()>> { None }
+
+/// oracle failure, also tallied per signature (the failure list itself is capped at 25 entries)
+pub fn ofail(out: &mut Out, sig: &str, detail: String) {
+    out.tally("oracle-failure", sig);
+    out.oracle_fail(sig, detail);
+}
